@@ -19,6 +19,7 @@ type vBlockingTransport struct {
 	past     bool
 	setCalls int
 	clears   int
+	syncWrites bool
 }
 
 func newVBlockingTransport() *vBlockingTransport {
@@ -34,6 +35,7 @@ func (t *vBlockingTransport) Read(b []byte) (int, error) {
 		}
 		select {
 		case <-t.arrived:
+			vStall(20) // bytes arrived; the reader is slow to pick them up
 		case <-t.dl:
 		}
 	}
@@ -50,6 +52,7 @@ func (t *vBlockingTransport) SetDeadline(tm time.Time) error {
 		}
 		return nil
 	}
+	vStall(30) // the call into the connection may be slow: other goroutines run meanwhile
 	if !t.past {
 		t.past = true
 		close(t.dl)
@@ -128,4 +131,33 @@ func verifC10WhileBlocked() {
 	} else {
 		vReach("lost-race")
 	}
+}
+
+// Write blocks (a client that is not reading, on a synchronous transport)
+// until the deadline has passed.
+func (t *vBlockingTransport) Write(b []byte) (int, error) {
+	if !t.syncWrites {
+		return t.vTransport.Write(b)
+	}
+	for !t.past {
+		<-t.dl
+	}
+	return 0, errVDeadline
+}
+
+// verifC10Stall (C08 deadline clause): the client stalls in the middle of the
+// first record and does not read either; when the context ends NewConn must
+// return (with an error) - it must not block on its own alert.
+func verifC10Stall() {
+	vSchedForks(true)
+	tr := newVBlockingTransport()
+	tr.syncWrites = true
+	hello := vPlainHello()
+	cut := []int{0, 3, 5, len(hello) - 1}[vInt(0, 3)]
+	tr.in = append(tr.in, hello[:cut]...)
+	ctx, cancel := context.WithCancel(context.Background())
+	go cancel()
+	_, err := NewConn(ctx, tr)
+	vAssert(err != nil, "a stalled client and an ended context make NewConn fail")
+	vReach("stall-returned")
 }
